@@ -566,6 +566,34 @@ def r_fmt(ctx, col, fields, tier):
                         col.bad("R-FMT", gv.qualname, gv.loc(cand), "floats carry exactly four decimals",
                                 f"`{norm_src(cand)}` writes a float with spec {sp[0]!r} on some path of the floating arm: that text does not carry the value "
                                 f"rounded to {DECIMALS} decimals (an exponent / general format keeps significant digits, not decimals)", stmt="float-spec-alt", definite=True)
+    # a constant text returned for some floats: only "the value is zero at the written precision" can justify it
+    col.rule("R-CELLCONST", "the text of a float cell depends on the value: a constant string is returned only for values that round to it at the written precision "
+             "(`abs(v) < c` with c <= half a unit of the last decimal, text = zero with the same number of decimals)", floor=0)
+    half = 0.5 * 10 ** (-DECIMALS)
+    zero_text = f"{0:.{DECIMALS}f}"
+    from .. import pathcond
+    for st in gv.node.body:
+        if isinstance(st, ast.If) and any(isinstance(n, ast.Attribute) and n.attr == "issubdtype" for n in ast.walk(st.test)) \
+                and any(isinstance(n, ast.Attribute) and n.attr in ("floating", "inexact") for n in ast.walk(st.test)):
+            for n in ast.walk(st):
+                if isinstance(n, ast.Return) and isinstance(n.value, ast.Constant) and isinstance(n.value.value, str):
+                    tests, complete = pathcond.conditions_at(gv.node, n)
+                    bound = None
+                    for t, pol in tests:
+                        if pol and isinstance(t, ast.Compare) and len(t.ops) == 1 and isinstance(t.ops[0], (ast.Lt, ast.LtE)) and isinstance(t.left, ast.Call) \
+                                and (dotted(t.left.func) or "").rsplit(".", 1)[-1] in ("abs", "fabs", "absolute") and isinstance(t.comparators[0], ast.Constant) \
+                                and isinstance(t.comparators[0].value, (int, float)):
+                            c = float(t.comparators[0].value)
+                            bound = c if bound is None else min(bound, c)
+                        if pol and isinstance(t, ast.Compare) and len(t.ops) == 1 and isinstance(t.ops[0], ast.Eq) and isinstance(t.comparators[0], ast.Constant) \
+                                and t.comparators[0].value == 0:
+                            bound = 0.0
+                    ok_ = bound is not None and (bound < half or (bound == half and isinstance(t.ops[0], ast.Lt))) and n.value.value == zero_text
+                    col.check(ok_, "R-CELLCONST", gv.qualname, gv.loc(n), "a constant cell text stands only for values that round to it",
+                              f"`{norm_src(n)}` under |v| < {bound}",
+                              f"`{norm_src(n)}` writes the constant {n.value.value!r} for every float with " + (f"|v| < {bound:g}" if bound is not None else "an unbounded range of values")
+                              + f": values from {half:g} up to that bound round to +-{10 ** (-DECIMALS):g} at {DECIMALS} decimals, the file says 0 -- the round trip loses them",
+                              stmt="cell-const", definite=True)
     if spec is None:
         col.unresolved("R-FMT", gv.qualname, gv.loc(), "float format",
                        "no `f\"{v:<spec>}\"` return under the floating-dtype test")
@@ -727,10 +755,13 @@ def r_hdr(ctx, col, names_cls, reader_pat):
     hdr_y = [n for n in own_nodes(w) if isinstance(n, ast.Yield) and not in_loop(repo, n, w)]
     if len(hdr_y) != 1:
         raise AnalysisError("anchor-vanished: single column-header yield outside loops in to_swc")
-    try:
-        f = Folder(repo, w.module, w, {"names": rec, "extra_cols": None})
+    def header_for(extra):
+        f = Folder(repo, w.module, w, {"names": rec, "extra_cols": extra})
         f.env["cols"] = f.eval(value_of(w, "cols"))
-        header = f.eval(hdr_y[0].value)
+        return f.eval(hdr_y[0].value)
+
+    try:
+        header = header_for(None)
     except Unfoldable as ex:
         col.unresolved("R-HDR", w.qualname, w.loc(hdr_y[0]), "writer header", str(ex))
         return
@@ -743,8 +774,8 @@ def r_hdr(ctx, col, names_cls, reader_pat):
     if arm is None:
         raise AnalysisError("anchor-vanished: the RE_COMMENT arm of parse_swc")
 
-    def reader_on(line):
-        env = {"names": rec, "extras": [], "line": line, "comments": []}
+    def reader_on(line, extras=()):
+        env = {"names": rec, "extras": list(extras), "line": line, "comments": []}
         f = Folder(repo, p.module, p, env)
         f.env["ignored_comment"] = f.eval(value_of(p, "ignored_comment"))
         t = f.eval(arm.test)
@@ -765,6 +796,23 @@ def r_hdr(ctx, col, names_cls, reader_pat):
                       f"the writer's own header {header!r} comes back as comment "
                       f"{out.effects[0][1][0]!r} on every round trip" if out.effects else "",
                       stmt="hdr-filter", facts={"header": header, "trace": out.trace})
+        # the extended header (a tree written with extra columns), read back with and without asking for those columns
+        for w_extra, r_extra, tag in ((["level"], ["level"], "hdr-filter-extra"), (["level"], [], "hdr-filter-extra-plain")):
+            try:
+                hx = header_for(w_extra)
+                outx, whyx = reader_on(hx, r_extra)
+            except Unfoldable as ex:
+                col.unresolved("R-HDR", p.qualname, p.loc(arm), "extended header", str(ex), stmt=tag)
+                continue
+            if outx is None:
+                col.bad("R-HDR", p.qualname, p.loc(arm), "the writer's extended header is recognised as comment", whyx, stmt=tag)
+            else:
+                col.check(not outx.effects, "R-HDR", p.qualname, p.loc(arm),
+                          "the header of a tree written with extra columns is filtered out as well",
+                          f"header {hx!r} dropped (read with extra_cols={r_extra})",
+                          f"written with extra_cols={w_extra} the header is {hx!r}; read back (extra_cols={r_extra}) it is kept as the comment "
+                          f"{outx.effects[0][1][0]!r}: comments grow by one line on every such round trip" if outx.effects else "",
+                          stmt=tag, facts={"header": hx})
         # a user comment
         token = "\x00USER COMMENT\x00"
         cy = [n for n in own_nodes(w) if isinstance(n, ast.Yield) and in_loop(repo, n, w)
